@@ -342,7 +342,7 @@ def search(ctx, disagreements, broken):
 
 # ------------------------------------------------------------------------------------------ directory half
 def run_directory(ctx):
-    from armi.nucDirectory import elements
+    from armi.nucDirectory import elements, nucDir
     from armi.nucDirectory import nuclideBases as nb
 
     t = build_tables()
@@ -394,13 +394,24 @@ def run_directory(ctx):
                 k = "mcc-id-shared-by-dummy-nuclides" if isinstance(n, nb.DummyNuclideBase) else "lookup-by-mcc"
                 ctx.fail(k, "MC2 id lookup of a nuclide's own id returns that nuclide; no two nuclides share an id",
                          dict(case, library=lib, id=key), observed=other, expected=n.name)
-        # --- element membership
+        # --- element membership, for EVERY instance (isotopes, elementals, dummy and lumped pseudo-nuclides), by identity
         e = n.element
-        if isinstance(n, (nb.NuclideBase, nb.NaturalNuclideBase)):
-            if not (e.z == n.z and elements.byZ.get(n.z) is e and any(m is n for m in e.nuclides)
-                    and elements.bySymbol.get(e.symbol) is e):
-                ctx.fail("element-membership", "each nuclide belongs to the element with its atomic number", case,
-                         observed=[e.z, e.symbol])
+        ez = elements.byZ.get(n.z)
+        if not (e is not None and e.z == n.z and ez is e and elements.bySymbol.get(e.symbol) is e):
+            ctx.fail("element-membership", "each nuclide belongs to the element with its atomic number", case,
+                     observed=[getattr(e, "z", None), getattr(e, "symbol", None)])
+        else:
+            for what, lst in (("element.nuclides", e.nuclides), ("nuclideBases.isotopes(z)", nb.isotopes(n.z)),
+                              ("nucDir.getNuclides(elementSymbol)", nucDir.getNuclides(elementSymbol=e.symbol)),
+                              ("iter(element)", list(e))):
+                if sum(1 for m in lst if m is n) != 1:
+                    ctx.fail("element-lists-its-nuclide", "every nuclide is listed exactly once, by identity, by the element with its atomic number",
+                             dict(case, query=what), observed=[getattr(m, "name", None) for m in lst][:12])
+            if n.name not in nucDir.getNuclideNames(elementSymbol=e.symbol):
+                ctx.fail("element-lists-its-nuclide", "every nuclide is listed by the element with its atomic number",
+                         dict(case, query="nucDir.getNuclideNames(elementSymbol)"))
+            if nucDir.getNuclide(n.name) is not n and n.name != "AM242":
+                ctx.fail("lookup-by-name", "nucDir.getNuclide(name) returns that nuclide", case)
         # --- model correspondence
         if isinstance(n, nb.NuclideBase):
             aid = n.getAAAZZZSId()
@@ -458,6 +469,16 @@ def run_directory(ctx):
                 ctx.count(f"alias keys in by{what}")
                 if k not in ("AM242", "nAm242"):
                     ctx.fail(f"alias-entry-by-{what}", "a dictionary key that is not the nuclide's own id", {"key": k, "nuclide": v.name})
+    # --- per element: the element's list holds exactly the instances with its z (no drop, no stranger, no repeat)
+    perz = collections.Counter(n.z for n in inst)
+    for z, e in sorted(elements.byZ.items()):
+        if len(e.nuclides) != perz.get(z, 0) or any(m.z != z or id(m) not in {id(x) for x in inst} for m in e.nuclides):
+            ctx.fail("element-nuclide-count", "an element lists exactly the nuclides of the directory with its atomic number",
+                     {"element": e.symbol, "z": z}, observed=[m.name for m in e.nuclides][:15],
+                     expected=[x.name for x in inst if x.z == z][:15])
+    for z in perz:
+        if z not in elements.byZ:
+            ctx.fail("element-membership", "each nuclide belongs to the element with its atomic number", {"z": z})
     # --- abundances per element (float data as loaded)
     for z, e in sorted(elements.byZ.items()):
         nat = e.getNaturalIsotopics()
@@ -577,6 +598,37 @@ def run_materials(ctx):
             ctx.fail(f"material-instantiate-{name}", "every library material can be instantiated", case, observed=repr(e))
             continue
         ctx.case(("material", name), nontrivial=True)
+        # repeated instantiation in one process + setDefaultMassFracs again: same composition every time
+        first = dict(m.massFrac)
+        for rep in range(1, 5):
+            try:
+                with common.quiet():
+                    m2 = c()
+                    comp2 = dict(m2.massFrac)
+                    if rep == 4:
+                        m2.setDefaultMassFracs()
+                        comp3 = dict(m2.massFrac)
+                    else:
+                        comp3 = comp2
+            except Exception as e:  # noqa
+                ctx.fail(f"material-reinstantiate-{name}", "a material class can be instantiated repeatedly", dict(case, instance=rep + 1),
+                         observed=repr(e))
+                break
+            ctx.evaluations += 1
+            for label, comp in (("instantiation", comp2), ("setDefaultMassFracs called again", comp3)):
+                same = comp.keys() == first.keys() and all(math.isclose(comp[k], first[k], rel_tol=1e-12, abs_tol=0.0) for k in comp)
+                okr = all(isinstance(v, (int, float)) and 0.0 <= v <= 1.0 for v in comp.values()) and all(k in nb.byName for k in comp)
+                if not (same and okr) and first and all(0.0 <= v <= 1.0 for v in first.values()):
+                    ctx.fail(f"material-composition-stable-{name}",
+                             "every instance of a material class has the same composition (known nuclides, fractions in [0,1])",
+                             dict(case, instance=rep + 1, after=label), observed=comp, expected=first)
+                    break
+            else:
+                continue
+            break
+        if m.massFrac != first:
+            ctx.fail(f"material-composition-stable-{name}", "instantiating a class again does not change earlier instances", case,
+                     observed=dict(m.massFrac), expected=first)
         abstract = modname in ABSTRACT_MODULES
         mf = dict(m.massFrac)
         unknown = [k for k in mf if k not in nb.byName]
